@@ -632,7 +632,7 @@ package main
 //@   at_call (*orderedmap.OrderedMap).Set@newSubMap sub-entry-relation-array-kept-under-an-exempt-key {C01,C02,C03,C04,C05,C12,C14,C15,C19}: implies((subMeta == VOp(1) && isArr(subV) && value == subV), keyOKq(c, redactFieldNames, subK, key) && ElemRelP(c, redactFieldNames, inSearchStage, subK, subV, value, om(mapOf(subV)), om(mapOf(value))))
 //@   at_call (*orderedmap.OrderedMap).Set@newMap a-sub-pipeline-is-rebuilt-stage-by-stage {C01,C02,C03,C04,C05,C12,C14,C15,C19}: implies(opMeta == VOp(0) && isArr(v), isArr(value) && len(arrOf(value)) == len(arrOf(v)) && (len(arrOf(v)) == 0 || base(arrOf(value)) != base(arrOf(v))))
 //@   at_call (*orderedmap.OrderedMap).Set@newSubMap a-sub-pipeline-is-rebuilt-stage-by-stage {C01,C02,C03,C04,C05,C12,C14,C15,C19}: implies(subFound && subMeta == VOp(0) && isArr(subV), isArr(value) && len(arrOf(value)) == len(arrOf(subV)) && (len(arrOf(subV)) == 0 || base(arrOf(value)) != base(arrOf(subV))))
-//@   at_call (*orderedmap.OrderedMap).Set@newMap the-short-form-of-a-stage-names-a-collection {C12}: implies(redactNamespaces && isMap(opMeta) && (k == "$unionWith" || k == "$out") && isStr(v), value == VStr(HashNameSpec(redactedString, strOf(v))))
+//@   at_call (*orderedmap.OrderedMap).Set@newMap the-short-form-of-a-stage-names-a-collection {C12}: implies(redactNamespaces && isMap(opMeta) && (k == "$unionWith" || k == "$out" || k == "$merge") && isStr(v), value == VStr(HashNameSpec(redactedString, strOf(v))))
 //@   at_call redactArrayValues#3 the-sub-key-is-on-the-path-handed-down {C14,C05}: len(arg_keyPath) >= 1 && arg_keyPath[len(arg_keyPath)-1] == subK && (matchAny(redactedFieldsRegexp, selems(arg_keyPath), off(arg_keyPath), len(arg_keyPath)) || !reMatch(redactedFieldsRegexp, subK))
 //@   at_call redactArrayValues#4 the-sub-key-is-on-the-path-handed-down {C14,C05}: len(arg_keyPath) >= 1 && arg_keyPath[len(arg_keyPath)-1] == subK && (matchAny(redactedFieldsRegexp, selems(arg_keyPath), off(arg_keyPath), len(arg_keyPath)) || !reMatch(redactedFieldsRegexp, subK))
 //@   at_call redactArrayValues#5 the-sub-key-is-on-the-path-handed-down {C14,C05}: len(arg_keyPath) >= 1 && arg_keyPath[len(arg_keyPath)-1] == subK && (matchAny(redactedFieldsRegexp, selems(arg_keyPath), off(arg_keyPath), len(arg_keyPath)) || !reMatch(redactedFieldsRegexp, subK))
